@@ -54,9 +54,9 @@ manifest = {
         "add_only": True,
     },
     "engines": [{"name": "sfa", "path": "/verif/sfa", "serves_properties": [c["property_id"] for c in checks],
-                 "kind_free_text": "repository-specific static analyser on stdlib ast: load-time normal form (helper inlining), resolver + class table/MRO + constant evaluator, statement CFG with dominators, path-effect summariser (symbolic environment, lowering of reductions/conditionals), decision-table comparison, rule families (DESIGN.md sections 2 and 12)"}],
+                 "kind_free_text": "repository-specific static analyser on stdlib ast: load-time normal form (helper inlining, constants, higher-order spellings, objects to closures), resolver + class table/MRO + constant evaluator, statement CFG with dominators, path-effect summariser (symbolic environment, lowering of reductions/conditionals), decision-table comparison, opacity gate for unresolved private code, rule families (DESIGN.md sections 2, 12 and 13)"}],
     "checks": checks,
-    "notes": "Every check is static analysis of /repo's current working tree; exit 0 holds, exit 1 + VIOLATION line, exit 2 ANALYSIS-ERROR (unrecognised shape / vanished anchor, never a VIOLATION). "
+    "notes": "Every check is static analysis of /repo's current working tree; exit 0 holds, exit 1 + VIOLATION line, exit 2 ANALYSIS-ERROR (unrecognised shape / vanished anchor / a mismatch on a function that still holds package-private code the engine did not see through - the opacity gate of DESIGN.md section 13 -, never a VIOLATION). "
              "Known findings are listed in /verif/known_findings.json (C12 bisect order, C16 FREEZES alias, C17 MUSIC and NOTES2 KeyError).",
     "not_applicable": [],
 }
